@@ -285,6 +285,16 @@ theorem loadRef_sat {m lvl : Nat} {P : PS → Prop} (E : Env) (n : Nat) :
             · exact he.shr b (hinv.cache k b h)
           · exact he.shr b (hinv.cache k b hkb)
 
+theorem layerM_sat {m lvl : Nat} {P : PS → Prop} (E : Env) (k : Nat) :
+    Sat m lvl P (layerM E k) (fun _ _ => True) := by
+  intro s hinv _
+  unfold layerM
+  have hi1 : Inv m { s with ltick := s.ltick + 1 } := ⟨hinv.closed, hinv.du, hinv.flat, hinv.cache, hinv.mpos⟩
+  have he1 : Ext m lvl s { s with ltick := s.ltick + 1 } := Ext.of_heap_eq rfl ⟨[], by simp⟩
+  cases hf : E.layerFailAt s.ltick with
+  | true => simp only [if_true]; exact ⟨he1, hi1⟩
+  | false => simp only [Bool.false_eq_true, if_false]; exact ⟨he1, hi1, trivial⟩
+
 theorem load_sat {m lvl : Nat} (E : Env) (l : HLink) :
     Sat m lvl (fun s => Vis s.heap m l) (load E l) (fun a s' => Vis s'.heap m (.ptr a)) := by
   cases l with
